@@ -530,10 +530,36 @@ Stylesheet::addWhitespaceElement(const XalanSpaceNodeTester&    theTester)
 
 
 void
+Stylesheet::collectNamespaceAliases()
+{
+    // m_imports holds the last xsl:import, which has the highest import
+    // precedence, first (see addImport()), and copyNamespaceAliases() never
+    // replaces an alias, so go forwards.
+    const StylesheetVectorType::iterator    theEnd = m_imports.end();
+    StylesheetVectorType::iterator          i = m_imports.begin();
+
+    while(i != theEnd)
+    {
+        (*i)->collectNamespaceAliases();
+
+        m_namespacesHandler.copyNamespaceAliases((*i)->getNamespacesHandler());
+
+        ++i;
+    }
+}
+
+
+
+void
 Stylesheet::postConstruction(StylesheetConstructionContext&     constructionContext)
 {
     KeyDeclarationVectorType::size_type         theKeyDeclarationsCount = 0;
     WhitespaceElementsVectorType::size_type     theWhitespaceElementsCount = 0;
+
+    // xsl:namespace-alias applies to the whole stylesheet: before anything is
+    // handed down to the imported stylesheets, learn the aliases that are only
+    // declared in one of them, so that they reach the other imports as well.
+    collectNamespaceAliases();
 
     {
         m_importsSize = m_imports.size();
